@@ -1,6 +1,7 @@
 """C16 — Assembly results are independent of thread count and scheduling."""
 
 import ast
+import re
 
 from .. import assemblers as A
 from .. import kernels as K
@@ -184,46 +185,142 @@ def colouring(ctx):
     m = ctx.repo.mod(SP)
     r = ctx.rule("PAR-COLOUR", "colour map: an element's colour differs from every element sharing one of its global dofs; elements are grouped by equal colour", 3)
     fn = m.fn("FunctionSpace._compute_color_map")
-    outer = [s for s in fn.body if isinstance(s, ast.For)]
-    ok = False
-    why = "unrecognised structure"
-    if len(outer) == 1:
-        lp = outer[0]
-        e = lp.target.id if isinstance(lp.target, ast.Name) else None
-        defs = roles.Defs(ast.FunctionDef(name="_", args=fn.args, body=lp.body, decorator_list=[], lineno=lp.lineno))
-        inner = [s for s in lp.body if isinstance(s, ast.For)]
-        adds = []
-        if e and len(inner) == 1 and roles.canon(inner[0].iter, defs) == "self.local2global[%s]" % e and isinstance(inner[0].target, ast.Name):
-            d = inner[0].target.id
-            in2 = [s for s in inner[0].body if isinstance(s, ast.For)]
-            if len(in2) == 1 and unparse(in2[0].iter).replace(" ", "") == "self.global2local[%s]" % d and isinstance(in2[0].target, ast.Tuple):
-                en = in2[0].target.elts[0].id
-                adds = [c for c in ast.walk(in2[0]) if isinstance(c, ast.Call) and unparse(c.func).endswith(".add") and len(c.args) == 1 and unparse(c.args[0]) == en]
-        asg = [s for s in lp.body if isinstance(s, ast.Assign) and unparse(s.targets[0]).replace(" ", "") == "self._color_map[%s]" % e]
-        good_pick = False
-        if asg and adds:
-            setname = unparse(adds[0].func.value)
-            val = asg[0].value
-            gens = [g for g in ast.walk(val) if isinstance(g, ast.GeneratorExp)]
-            if gens and len(gens[0].generators) == 1 and len(gens[0].generators[0].ifs) == 1:
-                cond = gens[0].generators[0].ifs[0]
-                cvar = gens[0].generators[0].target.id
-                if (isinstance(cond, ast.Compare) and isinstance(cond.ops[0], ast.NotIn) and unparse(cond.left) == cvar
-                        and roles.canon(cond.comparators[0], defs, keep={setname}).replace(" ", "") == "self._color_map[list(%s)]" % setname and unparse(gens[0].elt) == cvar):
-                    good_pick = True
-        src_iter = unparse(lp.iter).replace(" ", "")
-        ok = bool(adds) and good_pick and src_iter == "self.support_elements"
-        why = "neighbour set is not built from global2local of every local dof / colour is not chosen outside the neighbours' colours"
+    ok, why = _colour_map_shape(fn)
     r.check(ok, "_compute_color_map", SP, fn.name, fn.lineno, "colour map construction", why)
     fs = m.fn("FunctionSpace._sort_elements_by_color")
-    s = unparse(fs).replace(" ", "")
-    oks = ("colors=_np.where(self.color_map==color)[0]" in s and "sorted_indices[count:count+colors_length]=colors" in s and "indexptr[index+1]=count" in s
-           and "count+=colors_length" in s and "ncolors=1+max(self.color_map)" in s and "enumerate(_np.arange(ncolors" in s)
-    r.check(oks, "_sort_elements_by_color", SP, fs.name, fs.lineno, "grouping by colour", "elements are no longer grouped by equality of colour into consecutive indexptr ranges")
+    oks, whys = _sort_by_colour_shape(fs)
+    r.check(oks, "_sort_elements_by_color", SP, fs.name, fs.lineno, "grouping by colour", whys)
     inv = m.fn("invert_local2global")
-    si = unparse(inv).replace(" ", "")
-    oki = "iflocal_multipliers[elem_index,local_index]!=0:" in si and "global2local_map[dof].append((elem_index,local_index))" in si and "forlocal_index,dofinenumerate(local2global_map[elem_index])" in si
-    r.check(oki, "invert_local2global", SP, inv.name, inv.lineno, "global2local inversion", "global2local no longer lists (element, local index) under local2global[element, local] exactly when the multiplier is non-zero")
+    oki, whyi = _invert_shape(inv)
+    r.check(oki, "invert_local2global", SP, inv.name, inv.lineno, "global2local inversion", whyi)
+    # embedded positives: the same recognisers must reject the obvious breakages
+    bad1 = ast.parse("def f(self):\n    for e in self.support_elements:\n        nb = set()\n        for d in self.local2global[e][:1]:\n            for x, _ in self.global2local[d]:\n                nb.add(x)\n"
+                     "        self._color_map[e] = next(c for c in range(9) if c not in self._color_map[list(nb)])").body[0]
+    bad2 = ast.parse("def f(m, mult):\n    g = [[] for _ in range(1 + _np.max(m))]\n    for e in range(len(m)):\n        for l, d in enumerate(m[e]):\n            g[d].append((e, l))\n    return g").body[0]
+    r.must_fire(not _colour_map_shape(bad1)[0], "neighbours from the first local dof only")
+    r.must_fire(not _invert_shape(bad2)[0], "global2local without multiplier test")
+
+
+def _colour_map_shape(fn):
+    """Greedy colouring: for every support element e, N collects elem for (elem, _) in global2local[d] for every d in
+    local2global[e]; colour[e] is picked outside colour[list(N)]."""
+    defs = roles.Defs(fn)
+    S = roles.stores(fn.body, defs)
+    adds = [s for s in S if s.op == "call" and isinstance(s.vnode.func, ast.Attribute) and s.vnode.func.attr == "add" and len(s.vnode.args) == 1 and len(s.loops) == 3 and not s.guards]
+    if len(adds) != 1:
+        return False, "no unguarded `<set>.add(<element>)` inside the loops element -> local dofs -> global2local entries (found %d)" % len(adds)
+    a = adds[0]
+    l0, l1, l2 = a.loops
+    if not (isinstance(l0.target, ast.Name) and isinstance(l1.target, ast.Name) and isinstance(l2.target, ast.Tuple) and isinstance(l2.target.elts[0], ast.Name)
+            and isinstance(a.vnode.func.value, ast.Name)):
+        return False, "loop targets are not (element), (dof), (element, local index)"
+    e, d, en, setname = l0.target.id, l1.target.id, l2.target.elts[0].id, a.vnode.func.value.id
+    ln = a.node.lineno
+    if roles.canon(l0.iter, defs).replace(" ", "") != "self.support_elements":
+        return False, "outer loop does not run over self.support_elements"
+    if roles.canon(l1.iter, defs).replace(" ", "") != roles.expect("self.local2global[E]", defs, l1.lineno, lv=False, E=e):
+        return False, "the dof loop runs over `%s`, not over all of self.local2global[element]" % unparse(l1.iter)[:60]
+    if roles.canon(l2.iter, defs).replace(" ", "") != roles.expect("self.global2local[D]", defs, l2.lineno, lv=False, D=d):
+        return False, "the neighbour loop runs over `%s`, not over self.global2local[dof]" % unparse(l2.iter)[:60]
+    if not (isinstance(a.vnode.args[0], ast.Name) and a.vnode.args[0].id == en):
+        return False, "the set does not receive the neighbouring element"
+    picks = [s for s in S if s.op == "=" and s.target == roles.expect("self._color_map[E]", defs, s.node.lineno, E=e) and s.loops == (l0,)]
+    if len(picks) != 1 or picks[0].node.lineno < a.node.lineno:
+        return False, "self._color_map[element] is not assigned once after the neighbour set is complete"
+    gens = [g for g in ast.walk(picks[0].vnode) if isinstance(g, ast.GeneratorExp)]
+    if not (isinstance(picks[0].vnode, ast.Call) and unparse(picks[0].vnode.func) == "next" and len(gens) == 1 and len(gens[0].generators) == 1 and len(gens[0].generators[0].ifs) == 1):
+        return False, "colour is not `next(c for c in ... if c not in <neighbour colours>)`"
+    g = gens[0].generators[0]
+    cond = g.ifs[0]
+    cvar = g.target.id if isinstance(g.target, ast.Name) else None
+    if not (cvar and isinstance(cond, ast.Compare) and isinstance(cond.ops[0], ast.NotIn) and unparse(cond.left) == cvar and unparse(gens[0].elt) == cvar):
+        return False, "colour candidates are not filtered by `not in`"
+    if roles.canon(cond.comparators[0], defs, keep={setname}).replace(" ", "") != "self._color_map[list(%s)]" % setname:
+        return False, "candidates are compared with `%s`, not with the colours of the collected neighbours" % unparse(cond.comparators[0])[:60]
+    if not (isinstance(g.iter, ast.Call) and unparse(g.iter.func) == "range"):
+        return False, "colour candidates are not an ascending range"
+    return True, ""
+
+
+def _sort_by_colour_shape(fs):
+    defs = roles.Defs(fs)
+    S = roles.stores(fs.body, defs)
+    # the published arrays
+    pub = {}
+    for st in ast.walk(fs):
+        if isinstance(st, ast.Assign):
+            tg, vs = st.targets[0], st.value
+            pairs = list(zip(tg.elts, vs.elts)) if isinstance(tg, ast.Tuple) and isinstance(vs, ast.Tuple) else [(tg, vs)]
+            for t, v in pairs:
+                if unparse(t) in ("self._sorted_indices", "self._indexptr") and isinstance(v, ast.Name):
+                    pub[unparse(t)] = v.id
+    if set(pub) != {"self._sorted_indices", "self._indexptr"}:
+        return False, "self._sorted_indices / self._indexptr are not published from local arrays"
+    SI, IP = pub["self._sorted_indices"], pub["self._indexptr"]
+    loops = [s for s in fs.body if isinstance(s, ast.For)]
+    if len(loops) != 1:
+        return False, "expected one loop over the colours"
+    lp = loops[0]
+    it = roles.canon(lp.iter, defs).replace(" ", "")
+    alts ={roles.expect(x, defs, lp.lineno) for x in ("1 + max(self.color_map)", "1 + _np.max(self.color_map)", "1 + self.color_map.max()")}
+    if isinstance(lp.target, ast.Tuple) and len(lp.target.elts) == 2 and it in {"enumerate(_np.arange(%s))" % a for a in alts} | {"enumerate(range(%s))" % a for a in alts}:
+        I, C = lp.target.elts[0].id, lp.target.elts[1].id
+    elif isinstance(lp.target, ast.Name) and it in {"range(%s)" % a for a in alts} | {"_np.arange(%s)" % a for a in alts}:
+        I = C = lp.target.id
+    else:
+        return False, "the loop runs over `%s`, not over every colour 0 .. max(color_map)" % unparse(lp.iter)[:80]
+    body = [s for s in S if s.loops == (lp,) and not s.guards]
+    cnt = [s for s in body if s.op == "Add=" and isinstance(s.tnode, ast.Name)]
+    if len(cnt) != 1:
+        return False, "no single running counter in the colour loop"
+    CNT = cnt[0].target
+    ln = cnt[0].node.lineno
+    members = "_np.flatnonzero(self.color_map == C)"
+    ex = lambda src, line: roles.expect(src, defs, line, SI=SI, IP=IP, I=I, C=C, N=CNT, M=members)
+    if cnt[0].value != ex("len(M)", ln):
+        return False, "the counter advances by `%s`, not by the number of elements of the colour" % cnt[0].value[:80]
+    put = [s for s in body if s.op == "=" and isinstance(s.tnode, ast.Subscript) and unparse(s.tnode.value) == SI]
+    if len(put) != 1 or put[0].target != ex("SI[N:N + len(M)]", put[0].node.lineno) or put[0].value != ex("M", put[0].node.lineno) or put[0].node.lineno > ln:
+        return False, "the elements with color_map == colour are not stored at [count, count + their number) before the counter advances"
+    ptr = [s for s in body if s.op == "=" and isinstance(s.tnode, ast.Subscript) and unparse(s.tnode.value) == IP]
+    if len(ptr) != 1 or ptr[0].target != ex("IP[I + 1]", ptr[0].node.lineno) or ptr[0].value != CNT or ptr[0].node.lineno < ln:
+        return False, "indexptr[colour + 1] is not the counter after the colour's elements were added"
+    init = [st for st in fs.body if isinstance(st, ast.Assign) and unparse(st.targets[0]) == CNT and isinstance(st.value, ast.Constant) and st.value.value == 0 and st.lineno < lp.lineno]
+    ipdef = defs.lookup(IP, lp.lineno)
+    if not init:
+        return False, "the counter does not start at 0"
+    if not (ipdef is not None and ipdef[0] == "expr" and isinstance(ipdef[1], ast.Call) and unparse(ipdef[1].func).endswith(".zeros")):
+        return False, "indexptr is not zero-initialised (indexptr[0] must be 0)"
+    return True, ""
+
+
+def _invert_shape(inv):
+    defs = roles.Defs(inv)
+    p = arg_names(inv)
+    S = roles.stores(inv.body, defs)
+    rets = [s for s in S if s.op == "return"]
+    if len(rets) != 1 or not isinstance(rets[0].vnode, ast.Name):
+        return False, "does not return one local list"
+    G = rets[0].vnode.id
+    apps = [s for s in S if s.op == "call" and isinstance(s.vnode.func, ast.Attribute) and s.vnode.func.attr == "append"]
+    if len(apps) != 1 or len(apps[0].loops) != 2:
+        return False, "expected one append inside the loops over elements and local dofs"
+    a = apps[0]
+    l0, l1 = a.loops
+    if not (isinstance(l0.target, ast.Name) and isinstance(l1.target, ast.Tuple) and len(l1.target.elts) == 2):
+        return False, "loops are not `for element` / `for local, dof in enumerate(...)`"
+    E, L, D = l0.target.id, l1.target.elts[0].id, l1.target.elts[1].id
+    ln = a.node.lineno
+    ex = lambda src, lv=True: roles.expect(src, defs, ln, lv=lv, G=G, E=E, L=L, D=D, M=p[0], W=p[1])
+    if roles.canon(l0.iter, defs).replace(" ", "") not in (ex("range(len(M))", False), ex("range(M.shape[0])", False)):
+        return False, "outer loop does not run over every element of the map"
+    if roles.canon(l1.iter, defs).replace(" ", "") != ex("enumerate(M[E])", False):
+        return False, "inner loop does not enumerate local2global[element]"
+    if a.value != ex("G[D].append((E, L))"):
+        return False, "global2local[dof] does not receive (element, local index) (is `%s`)" % unparse(a.vnode)[:80]
+    if a.guards != ((ex("W[E, L] != 0"), True),):
+        return False, "the entry is not listed exactly when the local multiplier is non-zero (guards %s)" % (a.guards,)
+    return True, ""
 
 
 def aliasing(ctx):
@@ -245,40 +342,188 @@ def aliasing(ctx):
         arg = c.args[0]
         cls = None
         if isinstance(arg, ast.Name):
-            nm = arg.id
-            src = unparse(fn).replace(" ", "")
-            if ("%s[support]=_np.arange(" % nm in src or "%s[space.support]=_np.arange(" % nm in src or "%s[support]=_np.expand_dims(_np.arange(" % nm in src) and "=_np.zeros(" in src:
-                cls = "identity numbering on the support"
-        if cls is None and prov.startswith("_compute_p1_dof_map("):
-            cls = p1_idiom(ctx)
-        if cls is None and prov.startswith("_compute_rwg0_space_data("):
-            cls = rwg_idiom(ctx)
-        if cls is None and prov.startswith("_compute_bc_space_data("):
-            g = ctx.repo.mod("bempp_cl/api/grid/grid.py").fn("_get_data_multipliers")
-            sg = unparse(g).replace(" ", "")
-            if "local2global[support]=_np.arange(3*bary_support_size).reshape(bary_support_size,3)" in sg and "local_multipliers[support]=1" in sg:
-                cls = "identity numbering on the barycentric support (_get_data_multipliers)"
-        r.check(cls is not None, "%s::%s" % (rel.split("/")[-1], qn), rel, qn, c.lineno, "local2global provenance " + prov[:80],
-                "local2global comes from `%s`, which is neither an identity numbering nor a confirmed aliasing idiom" % prov[:120], detail=cls)
+            cls = _identity_numbering(fn, arg.id, defs)
+        m_call = re.match(r"(_compute_p1_dof_map|_compute_rwg0_space_data|_compute_bc_space_data)\(.*\)\[(\d+)\]$", prov.replace(" ", ""))
+        if cls is None and m_call:
+            callee, pos = m_call.group(1), int(m_call.group(2))
+            if callee == "_compute_bc_space_data":
+                cls = _bc_numbering(ctx, pos)
+            else:
+                cls = _alias_idiom(ctx.repo.mod(SS if callee == "_compute_p1_dof_map" else MS).fn(callee), pos)
+        r.check(cls is not None and not cls.startswith("!"), "%s::%s" % (rel.split("/")[-1], qn), rel, qn, c.lineno, "local2global provenance " + prov[:80],
+                "local2global comes from `%s`, which is neither an identity numbering nor an aliasing of zero-multiplier entries to a dof of the same element%s" % (prov[:120], ": " + cls[1:] if cls else ""), detail=cls)
+    # embedded positive: aliasing to a dof of another element must be rejected
+    bad = ast.parse("def f(n, sup, dofs):\n    m = _np.zeros((n, 3))\n    w = _np.zeros((n, 3))\n    for e in sup:\n        for l in range(3):\n            if dofs[e, l] != -1:\n"
+                    "                m[e, l] = dofs[e, l]\n                w[e, l] = 1\n            else:\n                m[e, l] = m[0, l]\n    return m, w").body[0]
+    r.must_fire((_alias_idiom(bad, 0) or "!").startswith("!"), "alias to another element's dof")
 
 
-def p1_idiom(ctx):
-    fn = ctx.repo.mod(SS).fn("_compute_p1_dof_map")
-    s = unparse(fn).replace(" ", "")
-    if ("max_dof=_np.max(local2global_final[element_index])" in s and "iflocal2global[element_index,local_index]==-1:\nlocal2global_final[element_index,local_index]=max_dof".replace("\n", "") in s.replace("\n", "")
-            and "ifsupport_final[element_index]:" in s):
-        return "P1: unused local dofs alias the element's own maximal dof (guarded by support_final)"
+def _resolve(node, defs):
+    seen = 0
+    while isinstance(node, ast.Name) and seen < 20:
+        d = defs.lookup(node.id, getattr(node, "lineno", None))
+        if d is None or d[0] != "expr":
+            break
+        node = d[1]
+        seen += 1
+    return node
+
+
+def _is_arange(node, defs):
+    node = _resolve(node, defs)
+    if isinstance(node, ast.Call) and unparse(node.func) in ("_np.arange", "np.arange") and len(node.args) == 1:
+        return node.args[0]
     return None
 
 
-def rwg_idiom(ctx):
-    fn = ctx.repo.mod(MS).fn("_compute_rwg0_space_data")
-    s = unparse(fn).replace(" ", "").replace("\n", "")
-    if ("iflocal_multipliers[element_index,local_index]!=0:first_nonzero=local_indexbreak" in s
-            and "iflocal_multipliers[element_index,local_index]==0:dofmap[local_index]=dofmap[first_nonzero]" in s
-            and "local2global_map[element_index,:]=dofmap" in s):
-        return "RWG: zero-multiplier entries alias dofmap[first_nonzero] of the same element"
+def _identity_numbering(fn, name, defs):
+    """`name` is filled by exactly one unguarded block store  name[mask] = arange(K*n).reshape(n, K)  (pairwise distinct
+    dofs): description, or None."""
+    S = [s for s in roles.stores(fn.body, defs) if isinstance(s.tnode, ast.Subscript) and unparse(s.tnode.value) == name]
+    if len(S) != 1 or S[0].guards or S[0].loops or S[0].op != "=" or isinstance(S[0].tnode.slice, ast.Tuple):
+        return None
+    v = _resolve(S[0].vnode, defs)
+    if isinstance(v, ast.Call) and isinstance(v.func, ast.Attribute) and v.func.attr == "reshape":
+        cnt = _is_arange(v.func.value, defs)
+        dims = v.args[0].elts if len(v.args) == 1 and isinstance(v.args[0], ast.Tuple) else v.args
+        one = len(dims) == 2 and isinstance(dims[1], ast.Constant) and dims[1].value == 1
+        if cnt is not None and len(dims) == 2 and roles.canon(cnt, defs).replace(" ", "") == roles.expect("A" if one else "A * B", defs, S[0].node.lineno, lv=False, A=dims[0], B=dims[1]):
+            return "identity numbering on the support (arange(n*K).reshape(n, K))"
+    if isinstance(v, ast.Call) and unparse(v.func).endswith("expand_dims") and len(v.args) == 2 and _is_arange(v.args[0], defs) is not None:
+        return "identity numbering on the support (arange(n) as a column)"
     return None
+
+
+def _bc_numbering(ctx, pos):
+    """_compute_bc_space_data returns at `pos` the map produced by _get_data_multipliers, which numbers identically."""
+    f = ctx.repo.mod(MS).fn("_compute_bc_space_data")
+    d = roles.Defs(f)
+    rets = [s for s in f.body if isinstance(s, ast.Return)]
+    if len(rets) != 1 or not isinstance(rets[0].value, ast.Tuple) or pos >= len(rets[0].value.elts):
+        return None
+    e = rets[0].value.elts[pos]
+    mm = re.match(r"_get_data_multipliers\(.*\)\[(\d+)\]$", roles.canon(e, d).replace(" ", ""))
+    if not (isinstance(e, ast.Name) and mm):
+        return None
+    if any(isinstance(s.tnode, ast.Subscript) and unparse(s.tnode.value) == e.id for s in roles.stores(f.body, d)):
+        return "!_compute_bc_space_data modifies the map after _get_data_multipliers built it"
+    g = ctx.repo.mod("bempp_cl/api/grid/grid.py").fn("_get_data_multipliers")
+    gd = roles.Defs(g)
+    gr = [s for s in g.body if isinstance(s, ast.Return)]
+    k = int(mm.group(1))
+    if len(gr) != 1 or not isinstance(gr[0].value, ast.Tuple) or k >= len(gr[0].value.elts) or not isinstance(gr[0].value.elts[k], ast.Name):
+        return None
+    got = _identity_numbering(g, gr[0].value.elts[k].id, gd)
+    return got and got + " in _get_data_multipliers"
+
+
+def _alias_idiom(fn, pos):
+    """Every store into the map returned at `pos` either comes with a non-zero multiplier on every path (a real dof,
+    seen by global2local and hence by the colouring) or copies a dof of the *same* element.  Returns a description,
+    '!reason' when a store is neither, None when the function is not of the expected form."""
+    defs = roles.Defs(fn)
+    rets = [s for s in fn.body if isinstance(s, ast.Return)]
+    if len(rets) != 1 or not isinstance(rets[0].value, ast.Tuple) or pos >= len(rets[0].value.elts) or not isinstance(rets[0].value.elts[pos], ast.Name):
+        return None
+    R = rets[0].value.elts[pos].id
+    S = roles.stores(fn.body, defs, lv=False)
+    # the multiplier array: the returned array that receives non-zero constants at [e, l]
+    names = [e.id for e in rets[0].value.elts if isinstance(e, ast.Name) and e.id != R]
+
+    def nonzero_const(v):
+        if isinstance(v, ast.Constant):
+            return v.value not in (0, 0.0, False)
+        if isinstance(v, ast.UnaryOp) and isinstance(v.op, ast.USub):
+            return nonzero_const(v.operand)
+        if isinstance(v, ast.IfExp):
+            return nonzero_const(v.body) and nonzero_const(v.orelse)
+        return False
+
+    W = [n for n in names if any(isinstance(s.tnode, ast.Subscript) and unparse(s.tnode.value) == n and isinstance(s.tnode.slice, ast.Tuple) and nonzero_const(s.vnode) for s in S)]
+    if len(W) != 1:
+        return None
+    W = W[0]
+    wst = [s for s in S if isinstance(s.tnode, ast.Subscript) and unparse(s.tnode.value) == W]
+
+    def covered(idx_txt, guards, loops):
+        """W[idx] receives a non-zero constant on every path below (guards, loops)."""
+        suf = []
+        for s in wst:
+            if unparse(s.tnode.slice).replace(" ", "").strip("()") != idx_txt.strip("()") or not nonzero_const(s.vnode) or s.loops != loops or s.guards[:len(guards)] != guards:
+                continue
+            suf.append(s.guards[len(guards):])
+        if () in suf:
+            return True
+        firsts = {g[0] for g in suf if len(g) == 1}
+        return any((t, True) in firsts and (t, False) in firsts for t, _ in firsts)
+
+    kinds = []
+    rows = {}  # per-element row buffers copied into R[e, :]
+    for s in S:
+        if not (isinstance(s.tnode, ast.Subscript) and unparse(s.tnode.value) == R):
+            continue
+        sl = s.tnode.slice
+        if isinstance(sl, ast.Tuple) and len(sl.elts) == 2 and isinstance(sl.elts[1], ast.Slice) and isinstance(s.vnode, ast.Name):
+            rows[s.vnode.id] = (unparse(sl.elts[0]), s)
+            continue
+        if not (isinstance(sl, ast.Tuple) and len(sl.elts) == 2 and all(isinstance(e, ast.Name) for e in sl.elts)):
+            return "!store `%s` is not of the form map[element, local]" % unparse(s.node)[:70]
+        e = sl.elts[0].id
+        if covered(unparse(sl).replace(" ", ""), s.guards, s.loops):
+            kinds.append("real dof with non-zero multiplier")
+        elif _same_row(s.vnode, defs, R, e):
+            kinds.append("alias of a dof in the same row")
+        else:
+            return "!`%s` writes a dof that neither has a non-zero multiplier nor is taken from row `%s` of the same map" % (unparse(s.node)[:70], e)
+    for buf, (e, rs) in rows.items():
+        alloc = defs.lookup(buf, rs.node.lineno)
+        if not (alloc and alloc[0] == "expr" and rs.loops and alloc[1].lineno > rs.loops[-1].lineno):
+            return "!row buffer `%s` is not allocated per element" % buf
+        for s in S:
+            if not (isinstance(s.tnode, ast.Subscript) and unparse(s.tnode.value) == buf):
+                continue
+            l = unparse(s.tnode.slice)
+            if covered("%s,%s" % (e, l), s.guards, s.loops):
+                kinds.append("real dof with non-zero multiplier")
+                continue
+            v = s.vnode
+            if isinstance(v, ast.Subscript) and unparse(v.value) == buf and isinstance(v.slice, ast.Name) and _index_of_nonzero(S, defs, v.slice.id, W, e):
+                kinds.append("alias of the row's first entry with non-zero multiplier")
+                continue
+            return "!`%s` fills the row with a dof that has no non-zero multiplier and is not an entry of the same row chosen by a non-zero multiplier" % unparse(s.node)[:70]
+    if not kinds:
+        return None
+    return "; ".join(sorted(set(kinds)))
+
+
+def _same_row(v, defs, R, e):
+    """v is max/min of R[e] (or R[e, :]) or an entry R[e, x] of the same row."""
+    v = _resolve(v, defs)
+    if isinstance(v, ast.Call) and unparse(v.func) in ("_np.max", "np.max", "max", "_np.min", "np.min", "min", "_np.amax") and len(v.args) == 1:
+        v = v.args[0]
+    elif isinstance(v, ast.Call) and isinstance(v.func, ast.Attribute) and v.func.attr in ("max", "min") and not v.args:
+        v = v.func.value
+    elif not isinstance(v, ast.Subscript):
+        return False
+    if not (isinstance(v, ast.Subscript) and unparse(v.value) == R):
+        return False
+    first = v.slice.elts[0] if isinstance(v.slice, ast.Tuple) else v.slice
+    return isinstance(first, ast.Name) and first.id == e
+
+
+def _index_of_nonzero(S, defs, name, W, e):
+    """Every non-constant store to the index variable `name` is `name = l` under the guard W[e, l] != 0."""
+    st = [s for s in S if s.op == "=" and isinstance(s.tnode, ast.Name) and s.tnode.id == name]
+    dyn = [s for s in st if not isinstance(s.vnode, ast.Constant)]
+    if not dyn:
+        return False
+    for s in dyn:
+        if not isinstance(s.vnode, ast.Name):
+            return False
+        want = roles.expect("W[E, L] != 0", defs, s.node.lineno, lv=False, W=W, E=e, L=s.vnode.id)
+        if not s.guards or s.guards[-1] != (want, True):
+            return False
+    return True
 
 
 def singular_after(ctx):
